@@ -166,13 +166,75 @@ Proof.
   apply model_meets_spec_from; [apply inv_init|apply dp_ok_init|exact Hwf].
 Qed.
 
+(* ------------------------------------------------------------------ the programmed set *)
+(* whatever trace the trace-oracle accepts, the IP set layer model turns into programmed sets the programmed-set oracle accepts *)
+Lemma ok_trace_progs : forall ver h pre dp outs,
+  ok_trace_from ver pre dp h outs = true -> ok_prog_from ver pre h (progs dp outs) = true.
+Proof.
+  intros ver h. induction h as [|o h IH]; intros pre dp outs H.
+  - destruct outs; [reflexivity|discriminate].
+  - destruct o as [i e|i|i e|i| |];
+      try (rewrite ok_trace_from_msg in H by discriminate;
+           match goal with |- ok_prog_from _ _ (?o :: _) _ = _ =>
+             change (ok_prog_from ver (o :: pre) h (progs dp outs) = true) end; apply IH; exact H).
+    cbn [ok_trace_from] in H. destruct outs as [|o outs]; [discriminate|].
+    cbn [progs ok_prog_from]. apply andb_true_iff in H. destruct H as [H1 H2].
+    destruct (match o with Some ms => Some ms | None => dp end) as [ms|] eqn:E; [|discriminate].
+    cbn [option_map]. rewrite H1. cbn [andb]. apply IH. exact H2.
+Qed.
+
+Theorem model_meets_spec_programmed : forall ver h, ok_prog ver h (progs None (run ver init h)) = true.
+Proof.
+  intros ver h. pose proof (model_meets_spec ver h) as H. unfold ok_trace in H. unfold ok_prog.
+  destruct (wf_history ver h); [|reflexivity]. apply ok_trace_progs. exact H.
+Qed.
+
+(* Prop-level: after CompleteDeferredWork + ApplyUpdates the kernel set is the duplicate-free ascending list of exactly
+   the excluded addresses, for every execution (any map orders) *)
+Theorem programmed_set_exact : forall ver h st dp,
+  wf_history ver h = true -> exec ver init None (h ++ [Flush]) st dp ->
+  exists ms, dp = Some ms
+    /\ (forall a, In a (support ms) <-> excluded ver h a)
+    /\ support ms = support (excluded_list ver h)
+    /\ StronglySorted N.lt (support ms).
+Proof.
+  intros ver h st dp Hwf E. destruct (set_exact_after_flush _ _ _ _ Hwf E) as [ms [-> Hm]].
+  exists ms. split; [reflexivity|]. split; [|split].
+  - intro a. rewrite support_In. apply Hm.
+  - apply support_ext. intro a. rewrite Hm, excluded_list_In by exact Hwf. reflexivity.
+  - apply dedup_strict, sortN_sorted.
+Qed.
+
+(* Address change, spelled out (the shape of seeded/C41/exclusion-ips-reused-slice): an endpoint that is in the set is
+   updated with other addresses (same count or not), nothing else happens, CompleteDeferredWork runs: every new address
+   is programmed, and an old address stays only if some endpoint that needs the hooks currently has it. *)
+Theorem address_change_programmed : forall ver h id w st dp,
+  wf_history ver (h ++ [WepUpdate id (Some w)]) = true -> wep_needs w = true ->
+  exec ver init None ((h ++ [WepUpdate id (Some w)]) ++ [Flush]) st dp ->
+  exists ms, dp = Some ms
+    /\ (forall n, In n (wep_nets ver w) -> In (fst n) (support ms))
+    /\ (forall a, In a (support ms) -> excluded ver (h ++ [WepUpdate id (Some w)]) a).
+Proof.
+  intros ver h id w st dp Hwf Hn E.
+  destruct (programmed_set_exact _ _ _ _ Hwf E) as [ms [-> [Hm _]]]. exists ms. split; [reflexivity|]. split.
+  - intros n Hin. apply Hm. left. exists id, w, n. split.
+    + rewrite cur_wep_app. cbn [cur_wep]. rewrite N.eqb_refl. reflexivity.
+    + split; [exact Hn|]. split; [exact Hin|].
+      apply covers_single; [|reflexivity].
+      rewrite wf_history_app in Hwf. apply andb_true_iff in Hwf. destruct Hwf as [_ Hw].
+      cbn [wf_history forallb wf_op] in Hw. rewrite andb_true_r in Hw. rewrite forallb_forall in Hw. apply Hw. exact Hin.
+  - intros a Ha. apply Hm. exact Ha.
+Qed.
+
 (* the whole check_case oracle accepts the model's own observables *)
 Theorem model_case_ok : forall ver h nft enabled,
   snd (check_case {| c_ver := ver; c_ops := h; c_outs := run ver init h; c_nft := nft; c_offload := enabled;
-                     c_rules := static_offload_rules nft enabled; c_limits := [] |}) = true.
+                     c_rules := static_offload_rules nft enabled; c_limits := [];
+                     c_prog := progs None (run ver init h) |}) = true.
 Proof.
-  intros ver h nft enabled. unfold check_case. cbn [snd c_ver c_ops c_outs c_rules c_limits].
-  rewrite model_meets_spec. unfold static_offload_rules. destruct (nft && enabled); [|reflexivity].
+  intros ver h nft enabled. unfold check_case. cbn [snd c_ver c_ops c_outs c_rules c_limits c_prog].
+  rewrite model_meets_spec, model_meets_spec_programmed. unfold static_offload_rules.
+  destruct (nft && enabled); [|reflexivity].
   destruct ver; vm_compute; reflexivity.
 Qed.
 
